@@ -1136,6 +1136,27 @@ func (w *worker) runCombine(ctx context.Context, task *Task, taskStats *stats.Ma
 	w.mu.Unlock()
 
 	defer func() {
+		if err == nil || task.CombineKey != "" {
+			return
+		}
+		// A failed attempt must not leave its partially combined rows
+		// behind: the combiners are private to the task, and a retry of the
+		// task on this worker would combine those rows a second time.
+		w.mu.Lock()
+		if w.combinerStates[combineKey] != combinerIdle {
+			w.mu.Unlock()
+			return
+		}
+		delete(w.combiners, combineKey)
+		w.combinerStates[combineKey] = combinerNone
+		w.mu.Unlock()
+		for i := range combiners {
+			if discardErr := (<-combiners[i]).Discard(); discardErr != nil {
+				log.Error.Printf("error discarding combiner: %v", discardErr)
+			}
+		}
+	}()
+	defer func() {
 		w.mu.Lock()
 		w.combinerStates[combineKey]--
 		w.mu.Unlock()
